@@ -155,7 +155,9 @@ func (s *stopTimeExpressionImpl) defaultTimeValue(model Model) float64 {
 				),
 			)
 		}
-		s.defaultValue = s.defaultTime.Sub(model.Epoch()).Seconds()
+		// computed on every call instead of being cached in the expression: the
+		// model is shared by all parallel runs and must only be read while solving
+		return s.defaultTime.Sub(model.Epoch()).Seconds()
 	}
 	return s.defaultValue
 }
